@@ -130,6 +130,14 @@ where
             }));
         }
 
+        if !last && next_offset % FlexVec::<T, L>::ALIGN != 0 {
+            // The next slot and its payload would not be aligned.
+            return Some(Err(Error {
+                kind: ErrorKind::BadAlign,
+                pos: self.pos,
+            }));
+        }
+
         let item_size = if !last { next_offset } else { payload_offset };
         if item_size > data.bytes().len() {
             return Some(Err(Error {
